@@ -1037,6 +1037,124 @@ func (g *vgen) reorgReobsCases(t *testing.T) {
 	}
 }
 
+// Re-observation (and log delivery) across a reorg that keeps the HEIGHT: "the same message" must be handed over with the time of
+// the block its receipt points to at that moment, whatever the watcher has resolved for that height before.  Per configuration one
+// Run with growing heights per round: transaction T re-observed in block (N, h1, t1); the chain reorganises and T is re-mined in
+// (N, h2, t2) - t2 later, earlier, or far from t1 -: T again; another transaction U of the new block N; the chain flips back to
+// (N, h1, t1): T again; T re-mined one block higher (N+1, h3, t3); a block of height N whose time lookup fails, then T there once
+// it answers; and the same change of branch DURING one request (step mode, after k = 0..3 of its RPC requests).  Last, on the
+// log path: L is logged in (M, hA, tA), the reorg delivers it again in (M, hB, tB), the head reaches its depth while the receipt
+// points to hB: forwarded once, with tB.
+func (g *vgen) sameHeightCases(t *testing.T) {
+	type cfg struct {
+		chain vaa.ChainID
+		dev   bool
+		wait  bool
+		gap   uint64
+	}
+	for ci, cf := range []cfg{{vaa.ChainIDBSC, false, true, 0}, {vaa.ChainIDEthereum, false, false, 8}, {vaa.ChainIDBSC, true, false, 0}} {
+		if g.stuck >= 3 {
+			return
+		}
+		c := &vCase{t: t, g: g, id: fmt.Sprintf("sh%d", ci), chain: cf.chain, dev: cf.dev, wait: cf.wait, gapF: cf.gap, gapS: cf.gap / 2}
+		g.r.Read(c.contract[:])
+		c.lat = 1900 + cf.gap
+		if !c.startLine(false) {
+			c.stop()
+			continue
+		}
+		gap := cf.gap
+		if cf.dev {
+			gap = 0
+		}
+		mkLogs := func(tx, bh ethCommon.Hash, bn uint64, ms []vMsgSpec) []*ethTypes.Log {
+			var logs []*ethTypes.Log
+			for _, m := range ms {
+				var st ethCommon.Hash
+				copy(st[12:], m.sender[:])
+				logs = append(logs, &ethTypes.Log{Address: c.contract, Topics: []ethCommon.Hash{LogMessagePublishedTopic, st}, Data: vPackData(m),
+					BlockNumber: bn, TxHash: tx, BlockHash: bh})
+			}
+			return logs
+		}
+		reobs := func(tx, bh ethCommon.Hash, bn uint64, ms []vMsgSpec, bt vBtAns) {
+			if c.dead() {
+				return
+			}
+			b := bn
+			c.opReobs(vReobs{tx: tx, bt: bt, rc: vRcAns{kind: "r", status: 1, bh: bh, bn: &b, logs: mkLogs(tx, bh, bn, ms)}}, g.goodAnswer)
+		}
+		for round, dt := range []int64{12, -7, int64(100000 + g.r.Intn(1000000)), 1} {
+			if c.dead() {
+				break
+			}
+			base := uint64(2000 + 40*round)
+			c.opHead(base+gap, 0, false, g.goodAnswer)
+			msT := []vMsgSpec{g.msgSpec()}
+			if round%2 == 1 {
+				msT = append(msT, g.msgSpec())
+			}
+			for i := range msT {
+				msT[i].cl = uint8(g.r.Intn(3))
+			}
+			msU := []vMsgSpec{g.msgSpec()}
+			msU[0].cl = 1
+			bn := base - 5
+			T, U := g.hash(0xaa), g.hash(0xaa)
+			h1, h2, h3, h4 := g.hash(0xbb), g.hash(0xbb), g.hash(0xbb), g.hash(0xbb)
+			t1 := uint64(1700000000 + 100*int64(round) + int64(g.r.Intn(50)))
+			t2 := uint64(int64(t1) + dt)
+			ok := func(t uint64) vBtAns { return vBtAns{kind: "ok", t: t} }
+			reobs(T, h1, bn, msT, ok(t1))
+			reobs(T, h2, bn, msT, ok(t2))
+			reobs(U, h2, bn, msU, ok(t2))
+			reobs(T, h1, bn, msT, ok(t1))
+			reobs(T, h3, bn+1, msT, ok(t2+12))
+			reobs(T, h4, bn, msT, vBtAns{kind: []string{"err", "null"}[round%2]})
+			reobs(T, h4, bn, msT, ok(t2+1))
+			// the change of branch inside one request
+			if !c.dead() {
+				V := g.hash(0xaa)
+				hA, hB := g.hash(0xbb), g.hash(0xbc)
+				b1, b2 := bn+2, bn+2
+				logs := mkLogs(V, hA, b1, msU)
+				c.opReorgReobs(vReorg{tx: V, k: round, rcA: vRcAns{kind: "r", status: 1, bh: hA, bn: &b1, logs: logs}, btA: ok(t1 + 24),
+					rcB: vRcAns{kind: "r", status: 1, bh: hB, bn: &b2, logs: vRelocate(logs, hB, b2)}, btB: ok(uint64(int64(t1+24) + dt)), latB: base + gap}, g.goodAnswer)
+			}
+		}
+		// the log path
+		if !c.dead() {
+			base := uint64(2400)
+			c.opHead(base+gap, 0, false, g.goodAnswer)
+			m := g.msgSpec()
+			m.cl = 2
+			conf := uint64(0)
+			if cf.wait {
+				conf = 2
+			}
+			L, hA, hB := g.hash(0xaa), g.hash(0xbb), g.hash(0xbb)
+			M := base + 1
+			pick := func(x vTxRef) vRcAns {
+				b := M
+				return vRcAns{kind: "r", status: 1, bh: hB, bn: &b}
+			}
+			c.opLog(vLogSpec{tx: L, bh: hA, bn: M, m: m, bt: vBtAns{kind: "ok", t: 1700009000}}, pick)
+			if !c.dead() {
+				c.opLog(vLogSpec{tx: L, bh: hB, bn: M, m: m, bt: vBtAns{kind: "ok", t: 1700009013}}, pick)
+			}
+			for _, hd := range []uint64{M + conf, M + conf + 1} {
+				if !c.dead() {
+					c.opHead(hd+gap, 0, false, pick)
+				}
+			}
+		}
+		if c.stuck != "" {
+			g.stuck++
+		}
+		c.stop()
+	}
+}
+
 // re-observation while the node's head is 0 ("no block number available"), then again once it has moved
 func (g *vgen) zeroHeadCases(t *testing.T) {
 	for i, wait := range []bool{false, true} {
@@ -1350,9 +1468,16 @@ func TestVerifEvm(t *testing.T) {
 		g.restarts, g.restartOneIn = 150, 4
 		g.startErrs, g.startErrOneIn = 60, 40
 	}
+	if os.Getenv("VERIF_PART") == "c04" {
+		// C04's share of this harness ("every honest guardian observing the same message signs the same 32 bytes"): the histories in
+		// which one message could be handed over with two different contents
+		g.sameHeightCases(t)
+		return
+	}
 	g.directCases(t, nDirect)
 	g.w.Flush()
 	if os.Getenv("VERIF_EVM_NOSC") == "" {
+		g.sameHeightCases(t)
 		g.scenarioCases(t)
 		g.zeroHeadCases(t)
 		g.raceCases(t)
